@@ -286,14 +286,18 @@ def canon_impl(req, res, parent):
     """canonical text of a fragment() result (same layout as the driver reply)"""
     rt = req['return_type']
     out = []
+    pieces = {}
+    if rt == 'fragment' and res and res[0].parent_sequence != parent:
+        return 'PARENT-MISMATCH'
     for x in res:
         if rt == 'fragment':
-            if x.parent_sequence != parent:
+            if x.parent_sequence is not res[0].parent_sequence and x.parent_sequence != parent:
                 return 'PARENT-MISMATCH'
+            if (x.start, x.end) not in pieces:
+                pieces[(x.start, x.end)] = annot.esc(annot.dump(annot_of(x.sequence, parent, x.start, x.end)))
             out.append(','.join([x.ion_type, str(x.start), str(x.end), str(x.charge), str(x.isotope), repr(float(x.loss)),
                                  repr(float(x.mass)), repr(float(x.neutral_mass)), repr(float(x.mz)), str(int(x.internal)),
-                                 str(int(x.monoisotopic)), annot.esc(annot.dump(annot_of(x.sequence, parent, x.start, x.end))),
-                                 annot.esc(x.unmod_sequence)]))
+                                 str(int(x.monoisotopic)), pieces[(x.start, x.end)], annot.esc(x.unmod_sequence)]))
         elif rt in ('mass', 'mz'):
             out.append(repr(float(x)))
         elif rt == 'label':
@@ -495,6 +499,9 @@ def has_terminal_static(a):
     return False
 
 
+MASS_BUDGET = [None]      # quick tier: at most this many fragments per case get the three mass-calculator calls (evenly spread)
+
+
 def oracle_case(case):
     """the property itself on the real implementation; returns None or a description"""
     import peptacular as pt
@@ -546,25 +553,39 @@ def oracle_case(case):
                 return f'ion type {t}: {len(sp)} cleavage positions, expected {exp} for length {n}'
         # ---- per fragment: masses, sequence, label
         tol = 1e-7 if prec is None else 10.0 ** (-prec) * (1 + 1e-9) + 1e-9
-        for f in frs:
+        step = 1 if not MASS_BUDGET[0] else max(1, len(frs) // MASS_BUDGET[0])
+        piece_ok = {}
+        for idx, f in enumerate(frs):
             s, e = f.start, f.end
             key = (f.ion_type, s, e, f.charge, f.isotope, f.loss)
-            exp = ref_piece(a0, s, e)
-            try:
-                fa = pt.parse(f.sequence)
-            except Exception as ex:  # noqa
-                return f'{key}: fragment sequence {f.sequence!r} does not parse: {ex}'
-            got = got_piece(fa)
-            if got != exp or fa._labile_mods or fa._unknown_mods or fa._intervals or fa._charge is not None or fa._static_mods:
-                return f'{key}: sequence {f.sequence!r} does not carry exactly the modifications of residues {s}..{e}: {got} vs {exp}'
-            if f.sequence != parent.slice(s, e).serialize():
-                return f'{key}: sequence {f.sequence!r} != slice().serialize() {parent.slice(s, e).serialize()!r}'
+            if (s, e, f.sequence) not in piece_ok:
+                exp = ref_piece(a0, s, e)
+                try:
+                    fa = pt.parse(f.sequence)
+                except Exception as ex:  # noqa
+                    return f'{key}: fragment sequence {f.sequence!r} does not parse: {ex}'
+                got = got_piece(fa)
+                if got != exp or fa._labile_mods or fa._unknown_mods or fa._intervals or fa._charge is not None or fa._static_mods:
+                    return f'{key}: sequence {f.sequence!r} does not carry exactly the modifications of residues {s}..{e}: {got} vs {exp}'
+                if f.sequence != parent.slice(s, e).serialize():
+                    return f'{key}: sequence {f.sequence!r} != slice().serialize() {parent.slice(s, e).serialize()!r}'
+                piece_ok[(s, e, f.sequence)] = True
             if f.unmod_sequence != parent.sequence[s:e]:
                 return f'{key}: unmod_sequence {f.unmod_sequence!r}'
             if f.internal != (s != 0 and e != n) or f.monoisotopic != mono:
                 return f'{key}: internal/monoisotopic flag wrong'
-            if f.parent_sequence != parent:
+            if f.parent_sequence is not frs[0].parent_sequence and f.parent_sequence != parent:
                 return f'{key}: parent_sequence is not the prepared peptide'
+            if abs(f.mz - f.mass / f.charge) > (1e-9 if prec is None else tol):
+                return f'{key}: mz {f.mz!r} is not mass/charge'
+            num = ref_number(f.ion_type, n, s, e)
+            if str(f.number) != num:
+                return f'{key}: number {f.number!r}, expected {num}'
+            lab = '+' * f.charge + f.ion_type + num + (f'({f.loss})' if f.loss != 0 else '') + '*' * f.isotope
+            if f.label != lab:
+                return f'{key}: label {f.label!r}, expected {lab!r}'
+            if idx % step:
+                continue
             m = pt.mass(f.sequence, ion_type=f.ion_type, charge=f.charge, isotope=f.isotope, loss=f.loss, monoisotopic=mono,
                         precision=prec)
             if abs(m - f.mass) > tol:
@@ -576,14 +597,8 @@ def oracle_case(case):
                       precision=prec)
             if abs(z - f.mz) > tol:
                 return f'MASS {key}: fragment mz {f.mz!r} != mz({f.sequence!r}, ...) = {z!r}'
-            if abs(f.mz - f.mass / f.charge) > (1e-9 if prec is None else tol):
-                return f'{key}: mz {f.mz!r} is not mass/charge'
-            num = ref_number(f.ion_type, n, s, e)
-            if str(f.number) != num:
-                return f'{key}: number {f.number!r}, expected {num}'
-            lab = '+' * f.charge + f.ion_type + num + (f'({f.loss})' if f.loss != 0 else '') + '*' * f.isotope
-            if f.label != lab:
-                return f'{key}: label {f.label!r}, expected {lab!r}'
+        if frs and frs[0].parent_sequence != parent:
+            return 'parent_sequence is not the prepared peptide'
         # ---- the other return types and Fragmenter are projections of the same list
         proj = {
             'mass': [f.mass for f in frs], 'mz': [f.mz for f in frs], 'label': [f.label for f in frs],
@@ -633,7 +648,7 @@ def ion_subsets(rng, tier):
         for bits in range(1, 1 << 16):
             yield [ION_TYPES[i] for i in range(16) if bits >> i & 1]
     else:
-        for _ in range(150):
+        for _ in range(100):
             bits = rng.randint(1, (1 << 16) - 1)
             yield [ION_TYPES[i] for i in range(16) if bits >> i & 1]
 
@@ -757,7 +772,7 @@ def run(chk):
     cases = []
     for dump, req in corpus_cases():
         cases.append(('fragment', dump, req, None))
-    n_rand = 500 if tier == 'quick' else 12000
+    n_rand = 400 if tier == 'quick' else 12000
     for _ in range(n_rand):
         a = gen_peptide(rng)
         req = gen_request(rng, tier, a.sequence)
@@ -799,7 +814,9 @@ def run(chk):
     # ------------------------------------------------------------- (c) oracle on the implementation
     ocases = [(c[1], c[2]) for c in cases if c[3] is None]
     if tier == 'quick' and not chk.broken():
-        ocases = ocases[:len(corpus_cases())] + ocases[len(corpus_cases())::2]
+        nc = len(corpus_cases())
+        ocases = ocases[:nc] + ocases[nc::3]
+    MASS_BUDGET[0] = 60 if (tier == 'quick' and not chk.broken()) else None
     # a small exhaustive family: every ion type x plain peptides of every length 1..12
     for n in range(1, 13):
         sq = ''.join(rng.choice(annot.RESIDUES20) for _ in range(n))
